@@ -11,8 +11,11 @@ func bp(b bool) *bool { return &b }
 
 // ---- pools ----
 
+// the last row: types that accept undef without being an Optional (a given_or_derived attribute of such a
+// type carries no implicit value; a required attribute of such a type may be given undef)
 var typePool = []Ty{tInt(), tIntR(0, 5), tIntR(1, 3), tStr(), tBool(), tOpt(tInt()), tOpt(tStr()), tArr(tInt()),
-	tOpt(tIntR(0, 5)), tArr(tStr()), tInt(), tStr()}
+	tOpt(tIntR(0, 5)), tArr(tStr()), tInt(), tStr(),
+	tAny(), tVarU(tStr()), tVarU(tIntR(0, 5)), tUndef(), tArr(tVarU(tInt())), tOpt(tVarU(tStr()))}
 
 var intPool = []int64{0, 1, 2, 3, 5, 7}
 var strPool = []string{"", "x", "y"}
@@ -50,6 +53,23 @@ func valueOf(r *lib.Rng, t Ty) RV {
 			es[i] = valueOf(r, *t.E)
 		}
 		return vArr(es...)
+	case "any":
+		switch r.Intn(5) {
+		case 0:
+			return vUndef()
+		case 1:
+			return vInt(intPool[r.Intn(len(intPool))])
+		case 2:
+			return vStr(strPool[r.Intn(len(strPool))])
+		case 3:
+			return vBool(r.Bool())
+		}
+		return vArr(vInt(1), vStr("x"))
+	case "varu":
+		if r.Chance(1, 3) {
+			return vUndef()
+		}
+		return valueOf(r, *t.E)
 	}
 	return vUndef()
 }
@@ -84,6 +104,18 @@ func narrower(r *lib.Rng, t Ty) Ty {
 		return tOpt(narrower(r, *t.E))
 	case "arr":
 		return tArr(narrower(r, *t.E))
+	case "any":
+		if r.Bool() {
+			return typePool[r.Intn(len(typePool))]
+		}
+	case "varu":
+		switch r.Intn(3) {
+		case 0:
+			return narrower(r, *t.E)
+		case 1:
+			return tOpt(narrower(r, *t.E))
+		}
+		return tVarU(narrower(r, *t.E))
 	}
 	return t
 }
@@ -871,7 +903,15 @@ var shapes = []func(name string) (AttrSpec, bool){
 	func(n string) (AttrSpec, bool) { return AttrSpec{Name: n, Type: tInt(), Kind: "given_or_derived"}, true },
 	func(n string) (AttrSpec, bool) { return AttrSpec{Name: n, Type: tInt(), Kind: "constant", HasValue: true, Value: vInt(9)}, true },
 	func(n string) (AttrSpec, bool) { return AttrSpec{Name: n, Type: tInt(), Kind: "derived"}, true },
+	// types that accept undef without being an Optional: given_or_derived without any value, and required
+	func(n string) (AttrSpec, bool) { return AttrSpec{Name: n, Type: tAny(), Kind: "given_or_derived"}, true },
+	func(n string) (AttrSpec, bool) {
+		return AttrSpec{Name: n, Type: tVarU(tInt()), Kind: "given_or_derived"}, true
+	},
+	func(n string) (AttrSpec, bool) { return AttrSpec{Name: n, Type: tAny(), Short: true}, true },
 }
+
+func exhaustiveCount() int { return len(shapes) * len(shapes) * 6 * 4 }
 
 func exhaustiveWorlds(emit func(w *World)) int {
 	eqs := []*EqSpec{nil, {Names: []string{"a"}}, {Names: []string{"b"}}, {Names: []string{"a", "b"}}, {Names: []string{}}, {One: true, Names: []string{"b"}}}
@@ -921,10 +961,10 @@ func exhaustiveWorlds(emit func(w *World)) int {
 							over[i] = vInt(1)
 						}
 						w.News = append(w.News, NewReq{T: 0, Args: over})
-						// a named request with an explicit undef for an Optional attribute
+						// a named request with an explicit undef for every attribute whose type accepts it
 						h := []KV{}
 						for _, at := range attrs {
-							if at.Ty.isOpt() {
+							if at.Ty.acceptsUndef() {
 								h = append(h, KV{at.Name, vUndef()})
 							} else {
 								h = append(h, KV{at.Name, vInt(3)})
@@ -997,6 +1037,34 @@ func corpusWorlds() []*World {
 		[]string{"text", "hash", "text", "hash"},
 		[]NewReq{{T: 0, Args: []RV{vInt(1)}}, {T: 1, Args: []RV{vInt(1)}}, {T: 1, Args: []RV{vInt(1), vInt(3), vStr("y")}}, {T: 2, Args: []RV{vInt(1)}}, {T: 2, Args: []RV{vInt(1), vInt(3), vStr("x"), vInt(7)}},
 			{T: 2, Named: true, Hash: []KV{{"a", vInt(1)}, {"d", vInt(5)}}}, {T: 3, Args: []RV{vInt(1), vBool(true)}}}))
+	// given_or_derived attributes whose type accepts undef without being an Optional carry no value: read
+	// after a positional construction that leaves them out, compared with the named construction that
+	// stores the undef, rebuilt from the init-hash (Optional[String] for comparison)
+	god := func(n string, t Ty) AttrSpec { return AttrSpec{Name: n, Type: t, Kind: "given_or_derived"} }
+	for _, route := range []string{"text", "hash"} {
+		for _, t := range []Ty{tAny(), tVarU(tStr()), tUndef(), tOpt(tStr()), tStr()} {
+			ws = append(ws, mk("corpus", []*DefSpec{{Name: "Ta", Attrs: []AttrSpec{{Name: "a", Type: tInt(), Short: true}, god("g", t)}}}, []string{route},
+				[]NewReq{{T: 0, Args: []RV{vInt(1)}}, {T: 0, Named: true, Hash: []KV{{"a", vInt(1)}}}, {T: 0, Args: []RV{vInt(1), vUndef()}},
+					{T: 0, Named: true, Hash: []KV{{"g", vUndef()}, {"a", vInt(1)}}}, {T: 0, Args: []RV{vInt(2)}}}))
+		}
+	}
+	// ... inherited, behind a defaulted attribute, and with a serialization list that puts it last (the
+	// required count must not include it: Ta(1) and Ta({a => 1}) are both accepted)
+	ws = append(ws, mk("corpus", []*DefSpec{
+		{Name: "Ta", Attrs: []AttrSpec{{Name: "a", Type: tInt(), Short: true}, god("g", tAny())}},
+		{Name: "Tb", Parent: "Ta", Attrs: []AttrSpec{{Name: "b", Type: tInt(), HasValue: true, Value: vInt(3)}, god("v", tVarU(tInt()))}}},
+		[]string{"text", "hash"},
+		[]NewReq{{T: 1, Args: []RV{vInt(1)}}, {T: 1, Named: true, Hash: []KV{{"a", vInt(1)}}}, {T: 1, Args: []RV{vInt(1), vStr("x")}},
+			{T: 1, Args: []RV{vInt(1), vUndef(), vInt(3), vInt(2)}}, {T: 1, Named: true, Hash: []KV{{"a", vInt(1)}, {"v", vInt(2)}}}, {T: 0, Args: []RV{vInt(1)}}}))
+	for _, ser := range [][]string{{"a", "b", "g"}, {"a", "g", "b"}, {"g", "a", "b"}} {
+		ws = append(ws, mk("corpus", []*DefSpec{{Name: "Ta", Attrs: []AttrSpec{{Name: "a", Type: tInt(), Short: true}, {Name: "b", Type: tInt(), HasValue: true, Value: vInt(3)}, god("g", tAny())},
+			HasSer: true, Ser: ser}}, []string{"text"},
+			[]NewReq{{T: 0, Args: []RV{vInt(1)}}, {T: 0, Named: true, Hash: []KV{{"a", vInt(1)}}}, {T: 0, Named: true, Hash: []KV{{"a", vInt(1)}, {"b", vInt(4)}, {"g", vStr("x")}}}}))
+	}
+	// a required attribute of type Any given undef, a single Hash as the positional argument of an Any attribute
+	ws = append(ws, mk("corpus", []*DefSpec{{Name: "Ta", Attrs: []AttrSpec{{Name: "u", Type: tAny(), Short: true}, {Name: "b", Type: tInt(), HasValue: true, Value: vInt(3)}}}}, []string{"text"},
+		[]NewReq{{T: 0, Args: []RV{vUndef()}}, {T: 0, Named: true, Hash: []KV{{"u", vUndef()}}}, {T: 0, Args: []RV{vHash(KV{"zz", vInt(1)})}}, {T: 0, Args: []RV{}},
+			{T: 0, Named: true, Hash: []KV{{"u", vInt(1)}, {"b", vInt(3)}}}, {T: 0, Args: []RV{vInt(1)}}}))
 	return ws
 }
 
